@@ -3,6 +3,8 @@
 // number of decrements reaches the initial count, never earlier; further decrements are harmless (saturating).
 
 #[kani::proof]
+#[kani::stub(core::any::TypeId::of, crate::vh::stub_typeid_of)]
+#[kani::stub(<core::any::TypeId as crate::vh::PEq>::eq, crate::vh::stub_typeid_eq)]
 #[kani::unwind(7)]
 fn data_entity_counter_exact()
 {
@@ -24,6 +26,8 @@ fn data_entity_counter_exact()
 
 /// Huge counts behave (no wrap): usize::MAX readers, one decrement => not done.
 #[kani::proof]
+#[kani::stub(core::any::TypeId::of, crate::vh::stub_typeid_of)]
+#[kani::stub(<core::any::TypeId as crate::vh::PEq>::eq, crate::vh::stub_typeid_eq)]
 fn data_entity_counter_no_wrap()
 {
     let n: usize = kani::any();
